@@ -35,6 +35,8 @@ package app
 //@   ensures len(config.Keypers) == 0 ==> ret0 == 0
 //@   ensures len(config.Keypers) > 0 ==> (ret0 >= config.Threshold && 3 * ret0 > 2 * len(config.Keypers))
 //@   ensures len(config.Keypers) > 0 && config.Threshold <= len(config.Keypers) ==> ret0 <= len(config.Keypers)
+//@   // exactly the larger of the threshold and the smallest count that exceeds two thirds
+//@   ensures len(config.Keypers) > 0 ==> (ret0 == config.Threshold || 3 * (ret0 - 1) <= 2 * len(config.Keypers))
 //@
 //@ // number of list positions 0..n-1 whose address is in the set (list positions, as the statement counts keypers)
 //@ recfn cntIn(dom SetInt, arr ArrArr, off Int, n Int) Int := ite(n <= 0, 0, cntIn(dom, arr, off, n - 1) + ite(dom[keyof(arr[off + n - 1])], 1, 0))
@@ -50,6 +52,10 @@ package app
 //@ pred valKeyOf(app, k, placeholder) := ite(has(app.Identities, k), app.Identities[k].Ed25519pubkey, placeholder)
 //@ func (*ShutterApp).makePowermap
 //@   requires app != nil && len(keypers) <= 1048576
+//@   // powers add up: a key that stands for two list positions carries at least 20 (the exact statement
+//@   // "10 x multiplicity" needs a recursive count under a quantifier, which no solver decided)
+//@   ensures forall i, j :: 0 <= i && i < j && j < len(keypers) && valKeyOf(app, keypers[i], NonExistentValidator.Ed25519pubkey) == valKeyOf(app, keypers[j], NonExistentValidator.Ed25519pubkey) ==> ret0[valKeyOf(app, keypers[i], NonExistentValidator.Ed25519pubkey)] >= 20
+//@   invariant forall i, j :: 0 <= i && i < j && j <= rangeindex && valKeyOf(app, keypers[i], NonExistentValidator.Ed25519pubkey) == valKeyOf(app, keypers[j], NonExistentValidator.Ed25519pubkey) ==> pm[valKeyOf(app, keypers[i], NonExistentValidator.Ed25519pubkey)] >= 20
 //@   ensures ret0 != nil && fresh(ret0) && positive(ret0)
 //@   ensures forall p Str :: has(ret0, p) ==> (exists i :: 0 <= i && i < len(keypers) && valKeyOf(app, keypers[i], NonExistentValidator.Ed25519pubkey) == p)
 //@   ensures forall i :: 0 <= i && i < len(keypers) ==> has(ret0, valKeyOf(app, keypers[i], NonExistentValidator.Ed25519pubkey))
@@ -114,6 +120,9 @@ package app
 //@ // its validators take over only when it is started and enough of its keypers have checked in: at least
 //@ // the threshold and more than two thirds
 //@ pred updateOK(app, j) := (app.Configs[j].ValidatorsUpdated && !old(app.Configs[j].ValidatorsUpdated)) ==> (app.Configs[j].Started && (len(app.Configs[j].Keypers) > 0 ==> (checkedIn(app, app.Configs[j].Keypers) >= app.Configs[j].Threshold && 3 * checkedIn(app, app.Configs[j].Keypers) > 2 * len(app.Configs[j].Keypers))))
+//@ // promptness: the start and the validator transition happen in the EndBlock in which their quorum is met
+//@ pred startNow(app, j) := (!old(app.Configs[j].Started) && seenBy(app, app.Configs[prevIdx(j)].Keypers, app.Configs[j].ActivationBlockNumber) >= app.Configs[prevIdx(j)].Threshold) ==> app.Configs[j].Started
+//@ pred updateNow(app, j) := (app.Configs[j].Started && len(app.Configs[j].Keypers) > 0 && checkedIn(app, app.Configs[j].Keypers) >= app.Configs[j].Threshold && 3 * checkedIn(app, app.Configs[j].Keypers) > 2 * len(app.Configs[j].Keypers)) ==> app.Configs[j].ValidatorsUpdated
 //@ pred flagsMonotone(app, j) := (old(app.Configs[j].Started) ==> app.Configs[j].Started) && (old(app.Configs[j].ValidatorsUpdated) ==> app.Configs[j].ValidatorsUpdated)
 //@
 //@ func (*ShutterApp).EndBlock
@@ -122,6 +131,7 @@ package app
 //@   ensures forall j :: 0 <= j && j < len(app.Configs) ==> startOK(app, j)
 //@   ensures forall j :: 0 <= j && j < len(app.Configs) ==> updateOK(app, j)
 //@   ensures forall j :: 0 <= j && j < len(app.Configs) ==> flagsMonotone(app, j)
+//@   ensures forall j :: 0 <= j && j < len(app.Configs) ==> (startNow(app, j) && updateNow(app, j))
 //@   ensures (forall i :: 0 <= i && i < len(app.Configs) ==> !cfgActive(app, i)) ==> app.Validators == old(app.Validators)
 //@   ensures forall i :: (0 <= i && i < len(app.Configs) && cfgActive(app, i) && (forall j :: i < j && j < len(app.Configs) ==> !cfgActive(app, j))) ==> pmOf(app.Validators, app, app.Configs[i].Keypers)
 //@   ensures !app.DevMode ==> (forall a, b :: 0 <= a && a < b && b < len(ret0.ValidatorUpdates) ==> bytesLT(vuKey(ret0.ValidatorUpdates[a]), vuKey(ret0.ValidatorUpdates[b])))
@@ -132,6 +142,7 @@ package app
 //@   invariant@1 forall j :: 0 <= j && j <= rangeindex ==> startOK(app, j)
 //@   invariant@1 forall j :: 0 <= j && j <= rangeindex ==> updateOK(app, j)
 //@   invariant@1 forall j :: 0 <= j && j <= rangeindex ==> flagsMonotone(app, j)
+//@   invariant@1 forall j :: 0 <= j && j <= rangeindex ==> (startNow(app, j) && updateNow(app, j))
 //@   invariant@2 numVotes == cntSeen(mapdom(app.BlocksSeen), mapvals(app.BlocksSeen), elemsof(app.Configs[allowanceConfigIndex].Keypers), offof(app.Configs[allowanceConfigIndex].Keypers), rangeindex + 1, config.ActivationBlockNumber)
 //@   invariant@2 numVotes <= rangeindex + 1
 //@
